@@ -298,3 +298,39 @@ Proof.
     split; [vm_compute; discriminate|]. split; [reflexivity|]. split; [exact Hio|].
     split; eexists; vm_compute; reflexivity.
 Qed.
+
+(* ------------------------------------------------------------------ *)
+(* Explicit handles (Avl/Session.v): a mutable view that stays open across operations, opened anew
+   only after the buffer was extended or a view was requested; includes trees initialised with a
+   capacity smaller than the record count of their buffer and used through the same handle. *)
+From Stevia Require Import Avl.Session Avl.SessionFacts.
+Open Scope N_scope.
+Theorem C09_session_refused_same_state :
+  forall (bits : N) (s : st) (t : itree) (fr : list N) (term : N) (o : op) (x' : sess) (y : out) (log : list Z),
+    Inv bits s t fr term -> LinkInsert.okbits bits ->
+    step_sess bits (mkSess s true) o = Ok (x', y, log) ->
+    quiet o y -> o <> OOpenMut -> c_st x' = s.
+Proof. exact sess_refused_same_state. Qed.
+Print Assumptions C09_session_refused_same_state.
+
+Theorem C09_session_refused_same_bytes :
+  forall (bits : N) (wb : nat) (lay : layout) (s : st) (t : itree) (fr : list N) (term : N) (o : op) (x' : sess) (y : out) (log : list Z),
+    Inv bits s t fr term -> LinkInsert.okbits bits ->
+    step_sess bits (mkSess s true) o = Ok (x', y, log) ->
+    quiet o y -> o <> OOpenMut -> encode wb lay (c_st x') = encode wb lay s.
+Proof. exact sess_refused_same_bytes. Qed.
+Print Assumptions C09_session_refused_same_bytes.
+
+Theorem C09_session_refused_same_reachable :
+  forall (bits capacity nrec : N) (keep : bool) (ops : list op) (x : sess) (o : op) (x' : sess) (y : out) (log : list Z),
+    LinkInsert.okbits bits -> capacity <= nrec -> nrec + 1 < 2 ^ bits ->
+    growth_okw_sess bits (spec_init_sess capacity nrec keep) ops ->
+    final_sess bits (init_sess capacity nrec keep) ops = Ok x -> c_live x = true ->
+    step_sess bits x o = Ok (x', y, log) -> quiet o y -> o <> OOpenMut ->
+    c_st x' = c_st x /\ cap (c_st x') = cap (c_st x).
+Proof. exact sess_refused_same_reachable. Qed.
+Print Assumptions C09_session_refused_same_reachable.
+
+(* non-vacuity: a tree of capacity 2 in a buffer of 4 records refuses the third key through the handle
+   that initialised it and stays Leibniz-equal; see SessionFacts.sess_full_refusal_same_state *)
+Example C09_session_example := sess_full_refusal_same_state.
